@@ -324,10 +324,43 @@ pub fn run(out: &mut Out, tier: &str, seed: u64, prop: &str) {
                 if ab != std::cmp::Ordering::Equal { out.nontrivial(format!("{}|{}", a.dump, b.dump)); }
                 out.stat(&format!("c16.{o}"));
             }
+            // the same marker under the deprecated spelling of its string keys (os.name for os_name, …): these are
+            // different variables of the diagram, so != markers — cmp must not call them Equal, at any depth
+            {
+                fn twin(t: &Term, alt: usize) -> Term {
+                    let map = |k: usize| match (k, alt) { (1, _) => 2, (3, _) => 4, (5, 0) => 6, (5, _) => 7, (10, _) => 11, (12, _) => 13, (k, _) => k };
+                    match t {
+                        Term::S(k, op, v) => Term::S(map(*k), *op, v.clone()),
+                        Term::And(a, b) => Term::And(Box::new(twin(a, alt)), Box::new(twin(b, alt))),
+                        Term::Or(a, b) => Term::Or(Box::new(twin(a, alt)), Box::new(twin(b, alt))),
+                        Term::Not(a) => Term::Not(Box::new(twin(a, alt))),
+                        other => other.clone(),
+                    }
+                }
+                let mut extra_terms: Vec<Term> = vec![
+                    Term::S(1, 0, "posix".into()), Term::S(12, 1, "win32".into()), Term::S(3, 4, "x86_64".into()), Term::S(5, 0, "CPython".into()), Term::S(10, 3, "1".into()),
+                    Term::and(Term::V(1, 5, "3.8".into()), Term::S(12, 1, "win32".into())),
+                    Term::or(Term::S(1, 0, "nt".into()), Term::and(Term::X(false, "dev".into()), Term::S(5, 0, "PyPy".into()))),
+                ];
+                for it in items.iter().take(if big { 400 } else { 120 }) { extra_terms.push(it.term.clone()); }
+                for t in &extra_terms {
+                    for alt in 0..2 {
+                        let tw = twin(t, alt);
+                        let (Some(x), Some(y)) = (crate::algebra::try_build(out, "C16", t), crate::algebra::try_build(out, "C16", &tw)) else { return };
+                        out.evaluations += 1;
+                        let (ab, ba) = (x.cmp(&y), y.cmp(&x));
+                        let input = serde_json::json!({"a": t.line(), "b": tw.line(), "class": "deprecated-key twin"});
+                        if (ab == std::cmp::Ordering::Equal) != (x == y) { out.oracle_fail("C16", "cmp returns Equal for != markers (or not Equal for == markers)", input.clone()); }
+                        if ab != ba.reverse() { out.oracle_fail("C16", "cmp is not antisymmetric", input.clone()); }
+                        if x == y && hash_of(&x) != hash_of(&y) { out.oracle_fail("C16", "equal markers hash differently", input.clone()); }
+                        out.stat(if x == y { "c16.twin_same" } else { "c16.twin_differs" });
+                    }
+                }
+            }
             // Requirement and VerbatimUrl: Eq / Ord / Hash agree (VerbatimUrl ignores the verbatim text)
             std::env::set_var("VP_HOME_DIR", "home/ferris");
             let reqs = ["a @ https://x.org/home/ferris/p", "a @ https://x.org/${VP_HOME_DIR}/p", "a @ https://X.ORG/home/ferris/p", "a @ https://x.org/home/ferris/q", "a>=1", "a >= 1", "a>=1,<2", "a<2,>=1",
-                "A[x,y]>=1", "a[x,y] >=1", "a[y,x]>=1", "b @ https://x.org/home/ferris/p", "a ; os_name == 'a'", "a;os_name=='a'", "a ; os_name == 'b'", "a @ https://x.org/home/ferris/p ; os_name == 'a'"];
+                "A[x,y]>=1", "a[x,y] >=1", "a[y,x]>=1", "b @ https://x.org/home/ferris/p", "a ; os_name == 'a'", "a;os_name=='a'", "a ; os_name == 'b'", "a ; os.name == 'a'", "a ; python_implementation == 'CPython'", "a ; platform_python_implementation == 'CPython'", "a @ https://x.org/home/ferris/p ; os_name == 'a'"];
             let parsed: Vec<pep508_rs::Requirement<pep508_rs::VerbatimUrl>> = reqs.iter().map(|r| pep508_rs::Requirement::from_str(r).unwrap()).collect();
             for (i, x) in parsed.iter().enumerate() {
                 for (j, y) in parsed.iter().enumerate() {
